@@ -91,6 +91,8 @@ def make_units(tier):
             u = dict(u, bound=1, shard=[0, 1])
         units.append(dict(u, src='c01', monitors=['legality']))
     for u in c10._base_make_units(tier):
+        if tier == 'quick' and u.get('policy') == 'app-first-batch' and u['fs'] is None:
+            continue  # quick: the second default policy only for the fragmenting configurations of the endings family
         units.append(dict(u, src='c10', monitors=['legality']))
     for u in c09.make_units(tier):
         units.append(dict(u, src='c09', monitors=['legality']))
